@@ -188,13 +188,21 @@ CLAIMED = {
              "synthesis_is_adjoint (any filters), qmf_perfect_reconstruction and qmf_isometry_1level (under support + completeness, "
              "any signal length incl. odd and shorter than the filter; complete_window: the coefficients pywt keeps lose nothing), "
              "Haar instance (haar_supported/complete/orthonormal/real), isometry_comp / adjoint_comp / rows / cols (levels, axes), "
-             "dwt1_isometry / wavedec_isometry / wavedec_packed_isometry for the executed list model at every level count. Tie: "
-             "translator + every run checks that all 75 orthogonal pywt wavelets satisfy the orthonormality/completeness sums "
-             "(1e-10) and that pywt.dwt/idwt, sp.fwt/iwt, Wavelet(.H) equal the exact rational Lean model (1e-10), shapes, packing "
-             "round trip, recorded pywt call arguments.",
+             "dwt1_isometry / wavedec_isometry / wavedec_packed_isometry for the executed list model at every level count; "
+             "multi-level 1-D list model incl. pywt.waverec's trimming rule: waverec_wavedec / wavedec_perfect_reconstruction (every "
+             "level count, every length, odd intermediate lengths), wavedec_adjoint (arbitrary coefficient lists, any filters); the full "
+             "1-D sigpy pipeline (pad to even with the zero in front, wavedec, pack | unpack, waverec, centre crop): fwt1_iwt1_id, "
+             "iwt1_is_adjoint, fwt1_isometry, fwt1_length; separable N-d at level 1 over an arbitrary list of axes: "
+             "fwtn_level1_isometry/_adjoint/_pr (applyAxes_*; tied to the executed model by fwt1_level1_eq); complete_of_qmf_pair: "
+             "Complete follows from the orthonormality of dec_lo alone when dec_hi is its alternating flip (fwt1_iwt1_id_qmf, "
+             "fwt1_isometry_qmf). Tie: translator + every run checks that all 75 orthogonal pywt wavelets satisfy the "
+             "orthonormality/completeness sums (1e-10), that dec_hi is the alternating flip of dec_lo (exact), and that pywt.dwt/idwt/"
+             "wavedec/waverec, sp.fwt/iwt, Wavelet(.H) equal the exact rational Lean model (1e-10), shapes, packing round trip, "
+             "N-d level 1 = per-axis composition of the model, recorded pywt call arguments.",
         note="Trusted: Lean kernel; translator gen_c10; pywt's filter taps and C implementation are a CONTRACT validated every run, "
-             "not proved; Orthonormal -> Complete (polyphase) not proved; multi-level perfect reconstruction/adjointness and N-d "
-             "packing are validated by correspondence and the oracle (one level proved).",
+             "not proved; the general Orthonormal -> Complete (g not assumed to be the flip of h) is not proved; multi-level N-d "
+             "(wavedecn recurses on the approximation block; coeffs_to_array block layout) is validated by correspondence and the "
+             "oracle (1-D all levels and N-d level 1 proved).",
         technique="Lean 4 proof (glue + filter-bank theorems) + contract validation of PyWavelets by exact-rational correspondence",
         design="DESIGN.md §3 C10, §9"),
     "C14": dict(
